@@ -113,6 +113,13 @@ add("C10", "exploration",
     "Oracle = deep equality with the generated record (no reference codec needed). Snapshot scenarios that depend on a background save are judged only when its completion on disk was observed, otherwise counted inconclusive.",
     "DESIGN.md §3 C10")
 
+add("C16", "exploration",
+    "shadow-model runtime monitor of the block store (random add/get/length/trusted/invalid/idle/close/reopen histories, independent re-parse of the index file, data extents decoded by a reference snappy decoder) in asm, noasm, GOARCH=386 and -race builds with reader goroutines; snappy alone between guard pages and canaries",
+    "Held on the histories observed: ~325 histories per quick run over 130+ option combinations (compression, cache size, data-file roll-over, files kept, backup) with blocks of 81 B..4 MiB in nine content families; every BlockGet result, length, trusted flag, restart walk and index record equals the shadow model, "
+    "appending after a restart changes no earlier record; millions of concurrent reader gets in the race build without a race report; ~80k snappy round trips / hand-built / corrupted streams without disagreement with the reference decoder or any access outside the buffers.",
+    "Oracle = shadow map + own parser of blockchain.new + /verif/ref/snappyref. Blocks in removed data files are 'may be absent'. Crash consistency of the store belongs to C07.",
+    "DESIGN.md §3 C16")
+
 NOT_BUILT = {}
 
 def main():
